@@ -139,7 +139,9 @@ func (c *Ctx) Reject(fnName string, sel Sel, conj ...string) bool {
 				hit := false
 				for _, f := range fs {
 					same := SameAtom(f.Atom, a)
-					imp := !same && ordered(a.Kind) && ordered(f.Atom.Kind) && Implies(a, f.Atom)
+					// only a value (x == k) may stand for the range test it falls in; a
+					// bound matched by a weaker bound would hide a moved boundary
+					imp := !same && a.Kind == EQ && ordered(f.Atom.Kind) && Implies(a, f.Atom)
 					if same || imp {
 						if !hit || imp {
 							if outer == nil || f.If.Block().Dominates(outer.Block()) {
@@ -176,7 +178,7 @@ func (c *Ctx) Reject(fnName string, sel Sel, conj ...string) bool {
 			// the edge's own condition must be (implied by) one of the conj atoms
 			own := false
 			for _, a := range as {
-				if SameAtom(edgeAtom, a) || ordered(a.Kind) && ordered(edgeAtom.Kind) && Implies(a, edgeAtom) {
+				if SameAtom(edgeAtom, a) || a.Kind == EQ && ordered(edgeAtom.Kind) && Implies(a, edgeAtom) {
 					own = true
 				}
 			}
@@ -647,6 +649,15 @@ func Contradicts(a, b Atom) bool {
 // condition over the same terms), so the path evaluation rests on tests that exist.
 func atomsTested(fn *ssa.Function, as []Atom) bool {
 	for _, a := range as {
+		// a bound must be, exactly, the condition of some branch (or its negation): the path
+		// form would otherwise accept a moved boundary (> turned into >=) as "still rejecting";
+		// a value atom x == k may be decided by any test over the same terms (case list vs range)
+		if a.Kind != EQ {
+			if !atomIsBranchCondition(fn, a) {
+				return false
+			}
+			continue
+		}
 		found := false
 		eachInstr(fn, func(in ssa.Instruction) {
 			ifi, ok := in.(*ssa.If)
